@@ -45,7 +45,7 @@ def run_playlist(ctx, prop, floor):
     t.evaluations = r["evaluations"]
     t.distinct_nontrivial = r["distinct_nontrivial"]
     t.rule = r["rule"]
-    t.samples = r["samples"]
+    t.samples = r["samples"] or []
     t.traces = r["traces_validated_against_impl"]
     t.distribution = r["distribution"]
     t.extra["subset_coverage"] = r["subset_coverage"]
